@@ -83,6 +83,31 @@ func c10Events(thorough bool) []Ev {
 	mEv("denom-x", "x", base, nil)
 	mEv("denom-1abc", "1abc", base, nil)
 	mEv("denom-other", "stake", base, nil)
+	// a denomination nobody holds yet, under an open-ended exponential period: until the first coin
+	// is minted its supply is zero
+	mEv("exp-only,fresh-denom", "ufresh", mintCfg{Periods: []mp{{Kind: ref.ExpStep, Amount: "100", Step: 10 * time.Second, Mult: "0.5"}}}, nil)
+
+	// housekeeping a governance would do: remove the periods that have ended, the current one becomes
+	// the first configured (start time = its real start, so the schedule itself does not change)
+	evs = append(evs, Ev{Name: "gov:minter(drop-ended-periods)", Gov: true, Build: func(v View) (sdk.Msg, string) {
+		p := v.App.CfeminterKeeper.GetParams(v.Ctx)
+		cur := v.App.CfeminterKeeper.GetMinterState(v.Ctx).SequenceId
+		var keep []*mtypes.Minter
+		start := p.StartTime
+		for _, m := range p.Minters {
+			if m.SequenceId < cur {
+				if m.EndTime != nil {
+					start = *m.EndTime
+				}
+				continue
+			}
+			keep = append(keep, m)
+		}
+		if len(keep) == len(p.Minters) || len(keep) == 0 {
+			return nil, ""
+		}
+		return &mtypes.MsgUpdateMintersParams{Authority: gov, StartTime: start, Minters: keep}, ""
+	}})
 
 	u2 := dAcc(aU("U2"))
 	blockedDest := dtypes.Account{Id: harness.ModAddr(authtypes.FeeCollectorName).String(), Type: dtypes.BaseAccount}
